@@ -31,6 +31,15 @@ type Case struct {
 
 var shapes = []dmenc.SymbolShapeHint{dmenc.SymbolShapeHint_FORCE_NONE, dmenc.SymbolShapeHint_FORCE_SQUARE, dmenc.SymbolShapeHint_FORCE_RECTANGLE}
 
+// sizesTable lists (cols, rows) of the 30 symbol sizes.
+func sizesTable() [][2]int {
+	out := make([][2]int, 0, len(dmref.Sizes))
+	for _, a := range dmref.Sizes {
+		out = append(out, [2]int{a.Cols, a.Rows})
+	}
+	return out
+}
+
 func dimOf(v []int) *gozxing.Dimension {
 	if len(v) != 2 {
 		return nil
